@@ -68,16 +68,17 @@ theorem loop_step_exists {P : Params} (A : Assembler) (script : List Item) {s : 
 /-! ### Controller / loop consistency -/
 
 structure CtlOK (s : State) : Prop where
-  exit_ok : (s.pc = .exiting ∨ s.pc = .exited) → s.ctl = .stopOk
+  exit_ok : (s.pc = .exiting ∨ s.pc = .exited) → s.ctl = .stopOk ∨ s.ctl = .closed
   ok_exit : s.ctl = .stopOk → (s.pc = .exiting ∨ s.pc = .exited)
   err_dead : s.ctl = .stopErr → s.pc = .dead
+  closed_exit : s.ctl = .closed → s.pc = .exited
 
 theorem CtlOK_init (P : Params) : CtlOK (init P) := by
   constructor <;> simp [init]
 
 theorem CtlOK_step {P : Params} {A : Assembler} {script : List Item} {s s' : State} {a : Step}
     (h : CtlOK s) (hs : step P A script s a = some s') : CtlOK s' := by
-  obtain ⟨h1, h2, h3⟩ := h
+  obtain ⟨h1, h2, h3, h4⟩ := h
   cases a <;> simp only [step] at hs <;> step_split <;>
     (constructor <;> simp_all)
 
@@ -132,7 +133,7 @@ theorem phi_loop_step {P : Params} {A : Assembler} {script : List Item} {s s' : 
   have hsub : ∀ k, s.pc = .submit k → s.pending.length = k ∧ k < P.T := by
     intro k hk; refine ⟨pending_length_of_submit hp hk, ?_⟩
     simp only [PoolOK, hk] at hp; exact hp.1
-  obtain ⟨c1, c2, c3⟩ := hc
+  obtain ⟨c1, c2, c3, c4⟩ := hc
   cases a <;> simp [Step.isLoop] at ha <;> simp only [step] at hs
   case checkCancel =>
     unfold stepCheckCancel at hs
@@ -148,6 +149,7 @@ theorem phi_loop_step {P : Params} {A : Assembler} {script : List Item} {s s' : 
         | stopping => exact hne hct
         | stopOk => rcases c2 hct with h | h <;> rw [hpc] at h <;> cases h
         | stopErr => have := c3 hct; rw [hpc] at this; cases this
+        | closed => have := c4 hct; rw [hpc] at this; cases this
     · cases hs
   case submitOk =>
     unfold stepSubmitOk at hs
